@@ -218,6 +218,17 @@ Theorem C15_max1abs : forall D, 1 <= max1abs RO D /\ Forall (fun ev => Rabs ev <
   (max1abs RO D = 1 \/ exists ev, In ev D /\ max1abs RO D = Rabs ev).
 Proof. exact max1abs_spec. Qed.
 
+(* stacks of maps: one threshold and one verdict per member; independent of the other members *)
+Theorem C15_verdict_stack_per_member : forall d atol Ds t, (t < length Ds)%nat ->
+  nth t (liouville_is_CP_stack RO d atol Ds) 0 = liouville_is_CP RO d atol (nth t Ds []) /\
+  nth t (liouville_is_cCP_stack RO d atol Ds) 0 = liouville_is_cCP RO d atol (nth t Ds []).
+Proof. exact verdict_stack_per_member. Qed.
+Theorem C15_verdict_stack_independent : forall d atol Ds Ds' t t', (t < length Ds)%nat -> (t' < length Ds')%nat ->
+  nth t Ds [] = nth t' Ds' [] ->
+  nth t (liouville_is_CP_stack RO d atol Ds) 0 = nth t' (liouville_is_CP_stack RO d atol Ds') 0 /\
+  nth t (liouville_is_cCP_stack RO d atol Ds) 0 = nth t' (liouville_is_cCP_stack RO d atol Ds') 0.
+Proof. exact verdict_stack_independent. Qed.
+
 (* explicit negative direction: transposition (d = 2, Pauli basis): eigenvector (0,1,-1,0), eigenvalue -1 *)
 Theorem C15_transpose_eigenvector : forall r, (r < 4)%nat ->
   fmv 4 (toF (liouville_to_choi RO 2 S_T pauli1)) xT r = cneg' (xT r).
